@@ -14,14 +14,16 @@ type WalkProperty struct {
 type WalkCallback func(schema WalkProperty) error
 
 func WalkSchemaFields(root RootSchema, asClient bool, callback WalkCallback) error {
-	err := walkSchemaFields(root, asClient, callback, nil)
+	err := walkSchemaFields(root, asClient, callback, nil, map[string]struct{}{})
 	if err != nil {
 		return err
 	}
 	return nil
 }
 
-func walkSchemaFields(root RootSchema, asClient bool, callback WalkCallback, path []string) error {
+// walking holds the schemas on the current path from the root, so that a
+// recursive schema is not descended into again.
+func walkSchemaFields(root RootSchema, asClient bool, callback WalkCallback, path []string, walking map[string]struct{}) error {
 
 	var properties PropertySet
 	switch rt := root.(type) {
@@ -39,6 +41,13 @@ func walkSchemaFields(root RootSchema, asClient bool, callback WalkCallback, pat
 		return fmt.Errorf("unsupported schema type %T", root)
 	}
 
+	name := root.FullName()
+	if _, ok := walking[name]; ok {
+		return nil
+	}
+	walking[name] = struct{}{}
+	defer delete(walking, name)
+
 	for _, prop := range properties {
 		propPath := append(path, prop.JSONName)
 		if err := callback(WalkProperty{
@@ -50,11 +59,11 @@ func walkSchemaFields(root RootSchema, asClient bool, callback WalkCallback, pat
 
 		switch st := prop.Schema.(type) {
 		case *ObjectField:
-			if err := walkSchemaFields(st.Ref.To, asClient, callback, propPath); err != nil {
+			if err := walkSchemaFields(st.Ref.To, asClient, callback, propPath, walking); err != nil {
 				return err // not wrapped, the path is already in the error above
 			}
 		case *OneofField:
-			if err := walkSchemaFields(st.Ref.To, asClient, callback, propPath); err != nil {
+			if err := walkSchemaFields(st.Ref.To, asClient, callback, propPath, walking); err != nil {
 				return err // not wrapped, the path is already in the error above
 			}
 		}
